@@ -99,14 +99,15 @@ type zzvSink struct {
 }
 
 type zzvEPEnv struct {
-	t     *testing.T
-	meta  zzvEPMeta
-	m     *zzvMesh
-	mmu   sync.Mutex // guards m.Add (paths run in parallel on their own agents of one mesh)
-	nrun  atomic.Int64
-	dns   *net.UDPConn
-	names map[string]string // lower-case name -> IPv4 address
-	cidr2 map[string]string // CIDR string -> net id
+	t          *testing.T
+	meta       zzvEPMeta
+	m          *zzvMesh
+	mmu        sync.Mutex // guards m.Add (paths run in parallel on their own agents of one mesh)
+	nrun       atomic.Int64
+	corruptIdx int // binding self-test: index of the path whose last expectation is falsified
+	dns        *net.UDPConn
+	names      map[string]string // lower-case name -> IPv4 address
+	cidr2      map[string]string // CIDR string -> net id
 }
 
 func zzvEPNewEnv(t *testing.T, meta zzvEPMeta) *zzvEPEnv {
@@ -484,6 +485,13 @@ func TestZZVExitPolicyReplay(t *testing.T) {
 	zzvLoad(t, "ZZV_IN", &in)
 	corrupt := os.Getenv("ZZV_CORRUPT") // binding self-test: falsify one expected value
 	e := zzvEPNewEnv(t, in.Meta)
+	e.corruptIdx = -1
+	for i, p := range in.Paths {
+		if p.Tag == "edge" {
+			e.corruptIdx = i
+			break
+		}
+	}
 	var steps, opens, mism atomic.Int64
 	var omu sync.Mutex
 	outcomes := map[string]int{}
@@ -535,14 +543,14 @@ func (e *zzvEPEnv) replayPath(pi int, path zzvEPPath, corrupt string, outcome fu
 		diverged := false
 		for si, sp := range path.Steps {
 			a := sp.A
-			if corrupt == "res" && pi == 0 && si == len(path.Steps)-1 {
+			if corrupt == "res" && pi == e.corruptIdx && si == len(path.Steps)-1 {
 				if a.Act == "Open" {
 					a.Res = map[string]string{"dial": "refuse", "refuse": "dial", "none": "refuse", "fail": "dial"}[a.Res]
 				} else {
 					a.Res = map[bool]string{true: "err-notfound", false: "ok"}[a.Res == "ok"]
 				}
 			}
-			if corrupt == "allow" && pi == 0 && si == len(path.Steps)-1 {
+			if corrupt == "allow" && pi == e.corruptIdx && si == len(path.Steps)-1 {
 				sp.T.Allow = append(append([]string{}, sp.T.Allow...), "n1")
 			}
 			prev, _, _ := r.project()
